@@ -150,11 +150,18 @@ func c08Unit(c *RunCtx, unit int) {
 									case 2:
 										w.FaultOps = map[string]error{"Load": authboss.ErrUserNotFound}
 									}
-									rec := w.DoOn(h, b, world.Req{Method: "GET", Path: tgt})
+									// the decision is about the session, not about the request's dressing: a third of the visits come
+									// as an OPTIONS request that looks like a cross-origin script's preflight
+									rq := world.Req{Method: "GET", Path: tgt}
+									if nb%3 == 2 {
+										rq = world.Req{Method: "OPTIONS", Path: tgt, Hdr: map[string]string{"Access-Control-Request-Method": "POST", "Origin": "https://other.example"}}
+										c.Stats.Count("preflight-dressed-visits")
+									}
+									rec := w.DoOn(h, b, rq)
 									c.Stats.Evaluations++
 									if v := c08Judge(w, rec, uid, half == 1, two == 1, judgeReqs, fi, mp == 1, so, tgt); v != nil {
 										v.Msg = "cell[" + cell + "] target " + trunc(tgt, 80) + ": " + v.Msg
-										c.Stats.Violations = append(c.Stats.Violations, sim.VioRec{Violation: *v, Index: unit, Cfg: cfg.String(), History: []string{cell, "GET " + trunc(tgt, 200)},
+										c.Stats.Violations = append(c.Stats.Violations, sim.VioRec{Violation: *v, Index: unit, Cfg: cfg.String(), History: []string{cell, rq.Method + " " + trunc(tgt, 200)},
 											Detail: fmt.Sprintf("status=%d location=%q body=%q probe=%v panic=%q", rec.Status, rec.Location, trunc(rec.RespBody, 200), rec.Probe.Ran, rec.Panic)})
 										return
 									}
